@@ -12,8 +12,64 @@
 using namespace khizmax_libcds_verif;
 namespace cc = cds::container;
 
+// ---------------------------------------------------------------- flat-combining publication records
+// Thread exit and the FC kernel.  Each thread owns a publication record through a
+// boost::thread_specific_ptr; when the thread ends the TLS cleanup marks the record `removed`.
+// Left to the OS this happens after the thread has handed the baton over, i.e. concurrently with
+// the next scheduled thread and invisible to the scheduler (nondeterministic).  The fixture
+// therefore releases the TLS slot in thread_end(), under the baton, as an ordinary scheduling point
+// (`--fc_tls_in_baton 0` restores the OS behaviour).
+// The kernel's allocator is replaced by one that never returns memory while the container lives
+// (freed records stay readable) and that reports a record which is freed while it is still
+// reachable from the publication list: that is a use-after-free in libcds, reported as an X line.
+namespace fcwatch {
+    static std::vector<void*> quarantine;
+    static void const* kernel = nullptr;
+    static bool (*linked_fn)( void const* kernel, void const* rec ) = nullptr;
+    static unsigned long freed_linked = 0;
+
+    template <class Kernel>
+    bool is_linked( void const* k, void const* rec )
+    {
+        Kernel const* kk = static_cast<Kernel const*>( k );
+        for ( cds::algo::flat_combining::publication_record* r = kk->m_pHead; r; r = r->pNext.load( atomics::memory_order_relaxed ))
+            if ( static_cast<void const*>( static_cast<typename Kernel::publication_record_type*>( r )) == rec )
+                return true;
+        return false;
+    }
+    template <class Kernel>
+    void watch( Kernel* k ) { kernel = k; linked_fn = &is_linked<Kernel>; freed_linked = 0; }
+    inline void unwatch() { kernel = nullptr; linked_fn = nullptr; }
+    inline void release()
+    {
+        for ( void* p : quarantine ) ::operator delete( p );
+        quarantine.clear();
+    }
+
+    template <class T>
+    struct alloc {
+        typedef T value_type;
+        template <class U> struct rebind { typedef alloc<U> other; };
+        alloc() noexcept {}
+        template <class U> alloc( alloc<U> const& ) noexcept {}
+        T* allocate( size_t n, void const* = nullptr ) { return static_cast<T*>( ::operator new( n * sizeof( T ))); }
+        void deallocate( T* p, size_t ) noexcept
+        {
+            if ( linked_fn ) {
+                set_quiet( true );      // the walk below must not be a scheduling point (never called from a quiet region)
+                if ( linked_fn( kernel, p )) ++freed_linked;
+                set_quiet( false );
+            }
+            quarantine.push_back( p );
+        }
+        template <class U> bool operator==( alloc<U> const& ) const noexcept { return true; }
+        template <class U> bool operator!=( alloc<U> const& ) const noexcept { return false; }
+    };
+}
+
 struct IDeque {
     virtual ~IDeque() {}
+    virtual void thread_exit() {}      // scheduled thread, last action: release per-thread state of the container
     virtual bool push_front( long v ) = 0;
     virtual bool push_back( long v ) = 0;
     virtual bool pop_front( long& v ) = 0;
@@ -26,10 +82,18 @@ struct FCDequeV : IDeque {
         static constexpr bool const enable_elimination = Elim;
         typedef cds::algo::flat_combining::wait_strategy::backoff<> wait_strategy;
         typedef cds::sync::spin lock_type;
+        typedef fcwatch::alloc<int> allocator;
     };
     typedef cc::FCDeque<long, Impl, traits> deque_t;
     std::unique_ptr<deque_t> d;
-    FCDequeV( unsigned compact, unsigned pass ) : d( new deque_t( compact, pass )) {}
+    FCDequeV( unsigned compact, unsigned pass ) : d( new deque_t( compact, pass )) { fcwatch::watch( &d->m_FlatCombining ); }
+    ~FCDequeV()
+    {
+        fcwatch::unwatch();
+        d.reset();
+        fcwatch::release();
+    }
+    void thread_exit() override { d->m_FlatCombining.m_pThreadRec.reset(); }      // runs the kernel's tls_cleanup
     // odd values go through the copying overload, even values through the moving one
     bool push_front( long v ) override
     {
@@ -56,9 +120,11 @@ struct Fixture {
     std::unique_ptr<IDeque> s;
     bool failed = false;
     std::string failure;
+    bool tls_in_baton = true;
 
     explicit Fixture( Case const& c )
     {
+        tls_in_baton = c.optl( "fc_tls_in_baton", 1 ) != 0;
         unsigned compact = 1 + unsigned( c.index % 2 ), pass = 1 + unsigned(( c.index / 2 ) % 4 );
         std::string const& v = c.variant;
         if ( v == "fcdeque_std" ) s.reset( new FCDequeV<std::deque<long>, false>( compact, pass ));
@@ -92,7 +158,12 @@ struct Fixture {
         return p;
     }
     void thread_begin( int ) { set_quiet( true ); cds::threading::Manager::attachThread(); set_quiet( false ); }
-    void thread_end( int ) { set_quiet( true ); cds::threading::Manager::detachThread(); set_quiet( false ); }
+    void thread_end( int )
+    {
+        if ( tls_in_baton )
+            s->thread_exit();
+        set_quiet( true ); cds::threading::Manager::detachThread(); set_quiet( false );
+    }
     std::vector<long> exec( int, Op const& op )
     {
         if ( op.name == "push_front" ) return { s->push_front( op.args[0] ) ? 1L : 0L };
@@ -102,7 +173,15 @@ struct Fixture {
         if ( ok ) return { 1, v };
         return { 0 };
     }
-    void finish( std::ostream& ) {}
+    void finish( std::ostream& )
+    {
+        if ( fcwatch::freed_linked ) {
+            failed = true;
+            std::ostringstream os;
+            os << "flat combining: " << fcwatch::freed_linked << " publication record(s) freed while still linked in the publication list";
+            failure = os.str();
+        }
+    }
 };
 
 int main( int argc, char** argv )
